@@ -6,6 +6,11 @@ KDConcatDataset / KDWrapper subclasses over an id-encoded base), independent pro
 Every in-domain stack is also followed through a later life (`run_history`, judged by `judge_history` with the same statement as the
 first reads, on the index maps the layers hold at that moment): index maps changed in place / replaced between reads, deepcopy and
 pickle copies of the used stack, a second instance alive at the same time, a second stack on top of shared layers.
+
+Every in-domain stack is also built a second time over INDEX-DERIVED roots (`run_strict`, judged by `judge_strict`): a root whose sample
+is computed from the index it is asked for (like an offset into a file / a synthetic dataset) instead of looked up in a Python list, so
+that a layer which forwards a negative index it should have translated itself (k -> len + k at the layer that receives it) addresses a
+visibly different sample. Only indices whose route through the layers' index maps ends at a non-negative root index are judged.
 """
 import copy
 import itertools
@@ -52,15 +57,18 @@ def _classes():
     class Base(KDDataset):
         """item i of base b is b*CODE+i; getitem_x uses Python list indexing like tests_util IndexDataset"""
 
-        def __init__(self, bid, n, kind, log):
+        def __init__(self, bid, n, kind, log, strict=False):
             super().__init__()
-            self.bid, self.n, self.kind, self.log = bid, n, kind, log
+            self.bid, self.n, self.kind, self.log, self.strict = bid, n, kind, log, strict
             self.data = [bid * CODE + i for i in range(n)]
             self.kdvattr_0 = bid
             if kind != "absent":
                 self.getall_x = self._getall_x
 
         def getitem_x(self, idx, ctx=None):
+            if self.strict:
+                # index-derived root: the sample is computed from the index (no sequence lookup that would forgive a negative index)
+                return self.bid * CODE + int(idx)
             return self.data[idx]
 
         def _getall_x(self):
@@ -129,7 +137,7 @@ def construct(spec, env):
     C = _classes()
     t = spec["t"]
     if t == "base":
-        obj = C["Base"](spec["id"], spec["n"], spec["kind"], env["log"])
+        obj = C["Base"](spec["id"], spec["n"], spec["kind"], env["log"], strict=bool(env.get("strict")))
         env["bases"][spec["id"]] = obj
         return obj
     if t == "concat":
@@ -268,6 +276,8 @@ def run_real(case):
             out["has_type"] = [_guard(lambda t=t: bool(ds.has_wrapper_type(ty_to_class(t)))) for t in case["tys"]]
             out["has"] = [_guard(lambda u=u: bool(ds.has_wrapper(env["objs"].get(u, _NOBODY)))) for u in case["uids"]]
             out["lookup"] = [_guard_attr(ds, f"kdvattr_{t}") for t in [0] + case["tys"]]
+            # the same stack over roots that derive the sample from the index they are asked for (oracle only)
+            out["_strict"] = run_strict(case)
             if case.get("hist"):
                 # the stack has been used by now: its later life (index maps changed in place / replaced, copies, a second instance)
                 out["_hist"] = run_history(ds, env, case)
@@ -280,6 +290,27 @@ def run_real(case):
     finally:
         signal.setitimer(signal.ITIMER_REAL, 0)
         signal.signal(signal.SIGALRM, old)
+
+
+# ----------------------------------------------------------------------------------------------
+# index-derived roots: the same stack over roots that compute the sample from the index (no list lookup)
+# ----------------------------------------------------------------------------------------------
+def run_strict(case):
+    """builds the stack of the case a second time over index-derived roots and reads len / per-sample / bulk once; nothing is judged
+    here. Returns {spec, ks, ktype, reads} or None (out of domain / cannot be built: the ordinary instance is judged for that)."""
+    spec = copy.deepcopy(case["ds"])           # construct() has filled in the index maps of the selection wrappers
+    if not _in_domain_safe(spec):
+        return None
+    env = {"log": [], "bases": {}, "objs": {}, "strict": True}
+    try:
+        ds = construct(spec, env)
+    except _Timeout:
+        raise
+    except Exception as e:  # noqa
+        return {"error": _exc_name(e)}
+    seed = (case.get("hist") or {}).get("seed", 0)
+    ktype = "np.int64" if seed % 3 == 1 else "int"
+    return {"spec": spec, "ks": list(case["ks"]), "ktype": ktype, "reads": _read(ds, case["ks"], converters=False, ktype=ktype)}
 
 
 # ----------------------------------------------------------------------------------------------
@@ -596,6 +627,75 @@ def spec_item(spec, k):
     return flat[k]
 
 
+def root_gets_negative(spec, k):
+    """does the route of index k through the layers' index maps end at a root with a negative index? (wrapper: k as it is; subset:
+    the entry at position k as it is; concat: the non-negative position inside the part that holds item k, negative k counted from
+    the end; balanced concat: round-robin position). Such a k relies on the root's own sequence indexing."""
+    t = spec["t"]
+    if t == "base":
+        return k < 0
+    if t == "wrap":
+        return root_gets_negative(spec["d"], k)
+    if t == "subset":
+        n = len(spec["idx"])
+        if not -n <= k < n:
+            raise _OutOfClaim("index outside the subset")
+        return root_gets_negative(spec["d"], spec["idx"][k])
+    if not spec["ds"]:
+        raise _OutOfClaim("empty concat")
+    if spec["bal"]:
+        if k < 0:
+            raise _OutOfClaim("negative index into a balanced concat")
+        part = spec["ds"][k % len(spec["ds"])]
+        n = spec_size(part)
+        if not n:
+            raise _OutOfClaim("balanced concat over an empty / unsized part")
+        return root_gets_negative(part, (k // len(spec["ds"])) % n)
+    sizes = [spec_size(p) for p in spec["ds"]]
+    if any(s is None for s in sizes):
+        raise _OutOfClaim("concat over an unsized part")
+    total = sum(sizes)
+    if not -total <= k < total:
+        raise _OutOfClaim("index outside the dataset")
+    k = k + total if k < 0 else k
+    for p, s in zip(spec["ds"], sizes):
+        if k < s:
+            return root_gets_negative(p, k)
+        k -= s
+    raise _OutOfClaim("index outside the dataset")
+
+
+def judge_strict(case, st):
+    """the property statement on the reads of the stack over index-derived roots: len = size of the map, item k = item map(k) of the
+    underlying dataset for every k whose route ends at a non-negative root index"""
+    if not st or "reads" not in st:
+        return []
+    spec, r = st["spec"], st["reads"]
+    how = "index-derived roots" + (f", indices handed over as {st['ktype']}" if st.get("ktype", "int") != "int" else "")
+    try:
+        if not in_domain(spec):
+            return []
+        size = spec_size(spec)
+    except _OutOfClaim:
+        return []
+    desc = describe(spec)
+    if size is not None and r["len"] != size:
+        return [Failure("indexmaps:len:index-derived-root", f"len differs from the size of the index map ({how}) for {desc}", case,
+                        size, r["len"])]
+    for k, got in zip(st["ks"], r["items"]):
+        try:
+            if root_gets_negative(spec, k):
+                continue
+            exp = spec_item(spec, k)
+        except (_OutOfClaim, IndexError):
+            continue
+        if got != exp:
+            return [Failure("indexmaps:getitem:index-derived-root", f"getitem_x({k}) addresses the wrong underlying sample when the "
+                            f"roots compute the sample from the index they are asked for ({how}; a layer forwarded an index it has "
+                            f"to translate itself) for {desc}", case, exp, got)]
+    return []
+
+
 def in_domain(spec):
     """the stacks the property quantifies over: every concat has parts and all of them are sized, every subset index addresses an
     existing position of the layer below (a non-negative round-robin position when that layer is a balanced concat)"""
@@ -773,6 +873,9 @@ def oracle(case, real):
             if real.get(k) != v:
                 fails.append(Failure("indexmaps:introspection", f"{k} does not resolve through the linear chain {desc}", case, v, real.get(k)))
                 break
+    # the same stack over index-derived roots
+    if not any(f.key != KNOWN_BALANCED_KEY for f in fails):
+        fails += judge_strict(case, real.get("_strict"))
     # the later life of the used stack: every stage is a stack with the index maps its layers hold NOW
     if not any(f.key != KNOWN_BALANCED_KEY for f in fails):
         fails += judge_history(case, real.get("_hist") or [])
@@ -1120,7 +1223,9 @@ class C02(PropertyCheck):
                     "concat arity 0-4, four subset classes with list/numpy/torch index containers, four wrapper classes, four bulk kinds) "
                     "+ the Python micro-semantics table; every stack compares len, getitem_x for all k in [-len-1, len], getall_x, "
                     "getall_as_list/numpy/tensor, root_dataset, getdim, all_wrappers, get_wrappers_of_type, has_wrapper(_type), attribute "
-                    "lookup, dispose; afterwards every in-domain stack lives on (oracle only): the index map of 1-3 subset layers is permuted / "
+                    "lookup, dispose; every in-domain stack is built a second time over index-derived roots (sample computed from the index "
+                    "asked for, int / numpy.int64 indices; oracle only, judged for every k whose route ends at a non-negative root index); "
+                    "afterwards every in-domain stack lives on (oracle only): the index map of 1-3 subset layers is permuted / "
                     "edited in place or replaced by a new list/numpy/torch (int64/int32) object (also of another size where no concat or subset "
                     "above fixes it) and everything is read again; or a deepcopy / pickle round trip of the used stack is read, changed and "
                     "the original re-read; or a second instance of the stack is changed before its first read while the first is alive; "
@@ -1171,6 +1276,8 @@ class C02(PropertyCheck):
                 res.bump(f"getall={'ok' if isinstance(real['getall'], list) else real['getall']}")
                 for it in real["items"]:
                     res.bump(f"item={'ok' if isinstance(it, list) else it}")
+                if (real.get("_strict") or {}).get("reads"):
+                    res.bump("index-derived-roots=read")
                 for stage in real.get("_hist") or []:
                     st = stage.get("step")
                     res.bump(f"history={stage['who']}" + (f" error={stage['error']}" if "error" in stage else ""))
